@@ -464,7 +464,16 @@ func (e Engine) run(ctx *kit.Ctx, sc *kit.Scenario[Config, Op], res *kit.Result,
 			for completions == 0 && now() < deadline {
 				synctest.Wait()
 				// take what both sides sent
-				for _, f := range fc.drain() {
+				// packets sent at the same instant by different goroutines are taken in a canonical order
+				sortByName := func(fs [][]byte) [][]byte {
+					sort.SliceStable(fs, func(i, j int) bool {
+						_, _, a := segOf(fs[i])
+						_, _, b := segOf(fs[j])
+						return a < b
+					})
+					return fs
+				}
+				for _, f := range sortByName(fc.drain()) {
 					seg, _, _ := segOf(f)
 					a := attempts[seg]
 					attempts[seg]++
@@ -490,7 +499,7 @@ func (e Engine) run(ctx *kit.Ctx, sc *kit.Scenario[Config, Op], res *kit.Result,
 					seq++
 					queue = append(queue, inflight{at: at, seq: seq, toP: true, frame: f})
 				}
-				for _, f := range fp.drain() {
+				for _, f := range sortByName(fp.drain()) {
 					seg, _, _ := segOf(f)
 					a := dattempts[seg]
 					dattempts[seg]++
